@@ -57,7 +57,7 @@ def derive_mapping(cnf, n, nv, ER, cone, p):
         s.add(clause_term(cl, V))
     models = []
     s.push()
-    for _ in range(6):
+    for _ in range(6 if nv < 100 else 40):
         if str(s.check()) != "sat":
             break
         m = s.model()
@@ -69,10 +69,15 @@ def derive_mapping(cnf, n, nv, ER, cone, p):
     sig_v = {v: tuple(symeval.model_bool(m, V[v]) for m in models) for v in range(1, nv + 1)}
     sig_g = {g: tuple(symeval.model_bool(m, ER[g]) for m in models) for g in cone}
 
+    witnesses = {}
+
     def entails(v, g):
         s.push()
         s.add(V[v] != ER[g])
         r = str(s.check())
+        if r == "sat":
+            mm = s.model()
+            witnesses.setdefault(g, []).append({i: symeval.model_bool(mm, V[i]) for i in range(1, nv + 1)})
         s.pop()
         p.queries["unsat" if r == "unsat" else "sat" if r == "sat" else "unknown"] += 1
         return r == "unsat"
@@ -91,7 +96,21 @@ def derive_mapping(cnf, n, nv, ER, cone, p):
             if sig_v[v] == sig_g[g] and entails(v, g):
                 var_gate[v] = g
                 break
+    base_models = [{i: symeval.model_bool(m, V[i]) for i in range(1, nv + 1)} for m in models]
+    LAST_WITNESSES.clear()
+    LAST_WITNESSES.update({g: base_models + w for g, w in witnesses.items() if g not in gate_var})
+    for g in cone:
+        if g not in gate_var:
+            LAST_WITNESSES.setdefault(g, base_models)
     return gate_var, var_gate, V
+
+
+LAST_WITNESSES = {}
+
+
+def short(c):
+    d = circ.describe(c)
+    return d if len(d) < 600 else f"{d[:300]} ... {d[-200:]} ({len(c.gates)} gates)"
 
 
 def check_encoding(p, name, c, sel):
@@ -110,7 +129,7 @@ def check_encoding(p, name, c, sel):
     cnf_term = z3.And(*[clause_term(cl, V) for cl in cnf]) if cnf else z3.BoolVal(True)
     outs_true = z3.And(*[ER[o] for o in out_labels]) if out_labels else z3.BoolVal(True)
     p.case(("tseytin", circ.snapshot(c)[:3], tuple(sel_idx) if sel is not None else None),
-           sample=f"{name} outputs={sel}: {circ.describe(c)} -> {len(cnf)} clauses, {nv} vars")
+           sample=f"{name} outputs={sel}: {short(c)} -> {len(cnf)} clauses, {nv} vars")
     src_head = REPLAY_PRELUDE + circ.circ_src(c) + "\nfrom cirbo.sat.cnf import tseytin_transformation\n" \
         f"sel={None if sel is None else list(sel)!r}\ncnf=tseytin_transformation(c, outputs=sel).get_raw()\n" \
         "sel_idx=list(range(len(c.outputs))) if sel is None else sel\n"
@@ -124,7 +143,7 @@ def check_encoding(p, name, c, sel):
         full = {i: symeval.model_bool(m, V[i]) for i in V}
         p.violation(
             f"tseytin:A-unsound:{_types_key(c, cone)}",
-            f"CNF has a model with inputs {x_of(m)} although not all selected outputs are true: {circ.describe(c)} sel={sel}",
+            f"CNF has a model with inputs {x_of(m)} although not all selected outputs are true: {short(c)} sel={sel}",
             src_head + f"model={full!r}\n"
             "sat_all=all(any((model[abs(l)] if l>0 else not model[abs(l)]) for l in cl) for cl in cnf)\n"
             "assign={lab: model[i+1] for i,lab in enumerate(c.inputs)}\n"
@@ -150,7 +169,7 @@ def check_encoding(p, name, c, sel):
         xa = x_of(m)
         p.violation(
             f"tseytin:B-incomplete:{_types_key(c, cone)}",
-            f"all selected outputs are true on {xa} but CNF ∧ inputs is unsatisfiable: {circ.describe(c)} sel={sel}",
+            f"all selected outputs are true on {xa} but CNF ∧ inputs is unsatisfiable: {short(c)} sel={sel}",
             src_head + f"assign={xa!r}\n"
             "exp=ref_concrete(circ.netlist_of(c), assign)\n"
             "outs=[exp[c.outputs[i]] for i in sel_idx]\n"
@@ -169,22 +188,17 @@ def check_encoding(p, name, c, sel):
             g = unencoded[0]
             p.violation(
                 f"tseytin:C-gate-value:{_types_key(c, cone)}",
-                f"no CNF variable is forced to the evaluated value of gate {g}: {circ.describe(c)} sel={sel}",
-                src_head + f"g={g!r}\n"
-                "import itertools\nfrom pysat.solvers import Solver\n"
+                f"no CNF variable is forced to the evaluated value of gate {g}: {short(c)} sel={sel}",
+                src_head + f"g={g!r}\nmodels={LAST_WITNESSES.get(g, [])!r}\n"
+                "# models of the CNF found by the solver; together they show, for every variable, a model in which it differs from g's value\n"
                 "nv=max([abs(l) for cl in cnf for l in cl]+[len(c.inputs)])\n"
-                "# enumerate models of the CNF (bounded) and look, per variable, for a model where it differs from g's value\n"
-                "s=Solver(bootstrap_with=cnf); models=[]\n"
-                "while len(models)<4096 and s.solve():\n"
-                "    m=s.get_model(); m=m+[-(i) for i in range(len(m)+1,nv+1)]; models.append(m); s.add_clause([-l for l in m])\n"
+                "ok=[m for m in models if all(any((m[abs(l)] if l>0 else not m[abs(l)]) for l in cl) for cl in cnf)]\n"
                 "differs=set()\n"
-                "for m in models:\n"
-                "    val={abs(l): l>0 for l in m}\n"
-                "    exp=ref_concrete(circ.netlist_of(c), {lab: val[i+1] for i,lab in enumerate(c.inputs)})\n"
-                "    for v in range(1,nv+1):\n"
-                "        if val[v]!=exp[g]: differs.add(v)\n"
-                "print('models', len(models), 'variables that differ from gate value in some model', sorted(differs), 'of', nv)\n"
-                "sys.exit(1 if models and len(differs)==nv else 0)\n",
+                "for m in ok:\n"
+                "    exp=ref_concrete(circ.netlist_of(c), {lab: m[i+1] for i,lab in enumerate(c.inputs)})\n"
+                "    differs |= {v for v in range(1,nv+1) if m.get(v, False)!=exp[g]}\n"
+                "print('models', len(ok), 'of', len(models), 'satisfy the CNF; variables that differ from the gate value in some model:', len(differs), 'of', nv)\n"
+                "sys.exit(1 if ok and len(differs)==nv else 0)\n",
             )
             return
         mapping = {v: g for g, v in gate_var.items()}
@@ -285,6 +299,23 @@ def unit(p, item, tier, seed):
             for sel in selections(c, rnd, thorough):
                 check_encoding(p, "feature:" + name, c, sel)
             check_solver_path(p, name, c)
+    elif kind == "large":
+        # circuits of a size at which a traversal may switch strategy (recursion depth, explicit stacks):
+        # operands come mostly from recent gates, so the output cone is deep and reconvergent
+        s, n_in, n_g = arg
+        rnd = random.Random(s)
+        ins = [f"x{i}" for i in range(n_in)]
+        nodes, gates = list(ins), []
+        for j in range(n_g):
+            k = rnd.choice([1, 2, 2, 2, 3])
+            t = rnd.choice(circgen.types_for_arity(k))
+            recent = nodes[-6:]
+            gates.append((f"g{j}", t, tuple(rnd.choice(recent if rnd.random() < 0.85 else nodes) for _ in range(k))))
+            nodes.append(f"g{j}")
+        c = circgen.build(ins, gates, [nodes[-1], nodes[-2], rnd.choice(nodes)], None if s % 2 else rnd.sample(nodes, len(nodes)))
+        for sel in ([0], None):
+            check_encoding(p, f"large[{s}:{n_in}x{n_g}]", c, sel)
+        check_solver_path(p, f"large[{s}]", c)
     else:
         s, count, maxg, maxi = arg
         rnd = random.Random(s)
@@ -301,7 +332,7 @@ def run(rep, tier, seed, only=None):
     thorough = tier == "thorough"
     rep.functions = ["cirbo.sat.cnf.tseytin.tseytin_transformation and every _process_* template", "cirbo.sat.cnf.Cnf.from_circuit",
                      "cirbo.sat.sat.is_satisfiable / is_circuit_satisfiable (solver = stub)"]
-    rep.bounds = {"template arity": "<= 6", "circuits": "feature family + seeded <= 5 inputs / <= 10 gates (quick), <= 6 / <= 14 (thorough)",
+    rep.bounds = {"template arity": "<= 6", "circuits": "feature family + seeded <= 5 inputs / <= 10 gates (quick), <= 6 / <= 14 (thorough); deep reconvergent circuits of 405 and 520 gates (quick), 401..1500 gates (thorough)",
                   "output selections": "None, [0], repeated, reversed, random, []"}
     rep.outside = ["arities > 6", "the real PySAT solvers (environment stub is used; contract: sound and complete)"]
     rep.rule = "case = (circuit, output selection); z3 decides A/B/C over all inputs and all CNF variables; mapping gate<->variable derived by entailment"
@@ -318,4 +349,6 @@ def run(rep, tier, seed, only=None):
     if sub("seeded"):
         items += [("seeded", (seed * 31 + s, 30 if thorough else 8, 14 if thorough else 10, 6 if thorough else 5))
                   for s in range(96 if thorough else 48)]
+    if sub("large"):
+        items += [("large", (seed * 7 + i, 6, g)) for i, g in enumerate((405, 520) if not thorough else (401, 405, 450, 520, 700, 1100, 1500))]
     rep.pmap(unit, items)
